@@ -210,7 +210,9 @@ def real_hostile(wk, kind):
     args = ["--keep-alive", "1", "--timeout", "60"]
     if kind == "empties":
         args += ["--worker-connections", "6"]
-    s = rp.Server(wk, workers=1, threads=2 if wk == "gthread" else None, args=args, name="c05h")
+    # hangup / hangup-daemon: clients that reset the connection while a response of several writes is on its way
+    # (foreground server, and one started with --daemon)
+    s = rp.Server(wk, workers=1, threads=2 if wk == "gthread" else None, args=args, name="c05h", daemon=kind == "hangup-daemon")
     held = []
     try:
         s.start()
@@ -226,6 +228,19 @@ def real_hostile(wk, kind):
                 pass
             held.append(c)                  # never read, never closed while the next client is served
             time.sleep(1.0)
+        elif kind.startswith("hangup"):
+            import struct
+            for path in ("/stream?n=4&d=0.25", "/gen?prod=iter&sizes=1000,1000,1000&d=0.25", "/stream?n=4&d=0.25"):
+                c = s.connect(timeout=5)
+                c.sendall(("GET %s HTTP/1.1\r\nHost: h\r\n\r\n" % path).encode())
+                try:
+                    c.recv(100)                         # the head (and maybe a first piece) has arrived
+                except OSError:
+                    pass
+                c.setsockopt(socket.SOL_SOCKET, socket.SO_LINGER, struct.pack("ii", 1, 0))
+                c.close()                               # RST: the server's next writes fail
+                time.sleep(0.9)
+            time.sleep(0.5)
         else:
             for _ in range(10):
                 c = s.connect(timeout=5)
@@ -401,7 +416,7 @@ def c05(ctx):
         metas.append(m)
     ctx.coverage["real_process_keepalive_runs"] = len(plan)
     # 7. real processes with TLS listeners and peers that do not complete the handshake
-    tplan = [("sync", True), ("sync", False), ("gthread", True), ("gevent", True)] if ctx.quick else \
+    tplan = [("sync", True), ("sync", False), ("gthread", True), ("gevent", True), ("eventlet", True)] if ctx.quick else \
         [(wk, e) for wk in ("sync", "gthread", "gevent", "eventlet") for e in (True, False)]
     for res in _parallel(tplan, lambda a, i: real_tls(a[0], a[1])):
         for t, m in res:
@@ -409,8 +424,8 @@ def c05(ctx):
             metas.append(m)
     ctx.coverage["real_process_tls_peers"] = len(tplan) * len(HOSTILE_TLS)
     # 8. real processes: clients that never read a multi-megabyte error page / that connect and leave without a byte
-    hplan = [("sync", "hugepage"), ("gthread", "empties"), ("gthread", "hugepage")] if ctx.quick else \
-        [(wk, k) for wk in ("sync", "gthread", "gevent", "eventlet") for k in ("hugepage", "empties")]
+    hplan = [("sync", "hugepage"), ("gthread", "empties"), ("gthread", "hugepage"), ("sync", "hangup-daemon"), ("gevent", "hangup")] if ctx.quick else \
+        [(wk, k) for wk in ("sync", "gthread", "gevent", "eventlet") for k in ("hugepage", "empties", "hangup", "hangup-daemon")]
     for t, m in _parallel(hplan, lambda a, i: real_hostile(a[0], a[1]), par=8):
         traces.append(t)
         metas.append(m)
